@@ -216,11 +216,45 @@ template <class V, class T, int N> static void normalize_case (vp::Ctx& c, const
 {
     vp::Src& s = c.s;
     V        v;
-    int      cls = (int) s.below (10);
+    int      cls = (int) s.below (12);
     for (int i = 0; i < N; ++i)
         v[i] = 0;
     switch (cls)
     {
+        case 10: // the output of an earlier normalisation (a stored normal), optionally off by a few ulps per component
+        {
+            for (int i = 0; i < N; ++i)
+                v[i] = gen::nice<T> (s);
+            bool nz = false;
+            for (int i = 0; i < N; ++i)
+                if (v[i] != 0) nz = true;
+            if (!nz) v[0] = 1;
+            v = v.normalized ();
+            if (s.coin ())
+                for (int i = 0; i < N; ++i)
+                    v[i] = bump (v[i], s.range (-2, 2));
+            break;
+        }
+        case 11: // length 1 +- 2^-k, k = 6 .. digits
+        {
+            for (int i = 0; i < N; ++i)
+                v[i] = gen::nice<T> (s);
+            quad n2 = 0;
+            for (int i = 0; i < N; ++i)
+                n2 += (quad) v[i] * (quad) v[i];
+            if (n2 == 0)
+            {
+                v[0] = 1;
+                n2   = 1;
+            }
+            int  k  = (int) s.range (6, std::numeric_limits<T>::digits);
+            bool up = s.coin ();
+            quad d  = (quad) std::ldexp (1.0, -k);
+            quad f  = (up ? 1 + d : 1 - d) / sqrtq (n2);
+            for (int i = 0; i < N; ++i)
+                v[i] = (T) ((quad) v[i] * f);
+            break;
+        }
         case 0: // null vector, random zero signs
             for (int i = 0; i < N; ++i)
                 v[i] = s.coin () ? (T) 0 : -(T) 0;
